@@ -479,7 +479,33 @@ func c02Scale(c *core.Ctx) {
 	}
 }
 
+// c02Idents: identifier spellings (keyword prefixes / suffixes / case variants, _ and $, lengths) in every
+// position a name can take.
+func c02Idents(c *core.Ctx) {
+	for ii, name := range gen.Identifiers() {
+		if !c.Mine(int64(ii)) || c.Tick() {
+			continue
+		}
+		for _, src := range gen.IdentPrograms(name) {
+			c.Cur(src)
+			c.Inc("reference_parses")
+			out, kd, d := c02Check(src)
+			if out {
+				c.Inc("stmt_texts_outside_domain")
+				continue
+			}
+			c.Inc("programs")
+			c.Inc("identifier_programs")
+			if kd != "" && c.ShrinkOK("id"+kd) {
+				pl, _ := json.Marshal(c02Payload{src})
+				c.Violate(core.Violation{Kind: kd, Config: "identifier", Case: fmt.Sprintf("%q", src), Detail: core.Short(d, 600), Payload: pl, Size: 40})
+			}
+		}
+	}
+}
+
 func c02Stmts(c *core.Ctx) {
+	c02Idents(c)
 	c02MultiLine(c)
 	c02Scale(c)
 	level, k := 1, 1
